@@ -101,7 +101,8 @@ Coverage == Exercised = {} \/ PrintT(<<"EXERCISED", Exercised>>)
 Report == (l = Len(Trace) + 1) => PrintT(<<"TRACE-END", Len(Trace), drift, driftAt>>)
 
 DriftReport == (drift > 0 /\ driftAt = l - 1) =>
-  PrintT(<<"DRIFT", driftAt, ev.name, ev>>)
+  PrintT(<<"DRIFT", driftAt, ev.name, [who |-> ev.who, n |-> ev.n, oracle |-> ev.oracle, cap |-> ev.cap,
+                                       ctx |-> ev.ctx, kind |-> ev.kind, ok |-> ev.ok]>>)
 
 TraceAccepted == TLCGet("stats").diameter = Len(Trace)
 
